@@ -132,6 +132,7 @@ func (fc *FnCtx) alloc(st *State, hint string, t types.Type) Term {
 	cur := fc.get(st, allocKey, SInt, nil)
 	r := fc.freshSort(hint, SInt)
 	r.T = t
+	fc.alog = append(fc.alog, r.S)
 	fc.assume(st, boolT(fmt.Sprintf("(> %s %s)", r.S, cur.S)))
 	fc.assumeGlobal(boolT(fmt.Sprintf("(> %s 0)", r.S)))
 	fc.set(st, allocKey, Term{S: r.S, Sort: SInt})
@@ -169,6 +170,7 @@ func (fc *FnCtx) ownResult(st *State, r Term) {
 	cur := fc.get(st, allocKey, SInt, nil)
 	fc.assume(st, boolT(fmt.Sprintf("(> %s %s)", r.S, cur.S)))
 	fc.set(st, allocKey, Term{S: r.S, Sort: SInt})
+	fc.alog = append(fc.alog, r.S)
 	fc.own(st, r, r.T)
 }
 
@@ -196,13 +198,42 @@ func (fc *FnCtx) preserveOwned(st *State, k heapKey, old, nv Term) {
 
 // allocated records that a reference value read from the heap / a parameter predates the current allocation mark.
 func (fc *FnCtx) allocated(st *State, v Term) {
+	if isSliceSort(v.Sort) {
+		fc.allocatedElems(st, v)
+		return
+	}
 	if v.Sort != SInt || v.T == nil {
 		return
 	}
 	switch v.T.Underlying().(type) {
-	case *types.Pointer, *types.Map:
+	case *types.Pointer, *types.Map, *types.Struct:
+		if isTimeType(v.T) {
+			return
+		}
 		cur := fc.get(st, allocKey, SInt, nil)
 		fc.assume(st, boolT(fmt.Sprintf("(<= %s %s)", v.S, cur.S)))
+	}
+}
+
+// allocatedElems: every element reference of a slice that exists now predates the current allocation mark.
+func (fc *FnCtx) allocatedElems(st *State, s Term) {
+	if !isSliceSort(s.Sort) || sliceElemSort(s.Sort) != SInt || s.T == nil || fc.qdepth > 0 {
+		return
+	}
+	var et types.Type
+	switch u := s.T.Underlying().(type) {
+	case *types.Slice:
+		et = u.Elem()
+	case *types.Array:
+		et = u.Elem()
+	}
+	if et == nil || isTimeType(et) {
+		return
+	}
+	switch et.Underlying().(type) {
+	case *types.Pointer, *types.Map, *types.Struct:
+		cur := fc.get(st, allocKey, SInt, nil)
+		fc.assume(st, boolT(fmt.Sprintf("(forall ((qi Int)) (! (<= (select (sarr %s) qi) %s) :pattern ((select (sarr %s) qi))))", s.S, cur.S, s.S)))
 	}
 }
 
@@ -245,11 +276,17 @@ func (fc *FnCtx) fieldArr(st *State, f *types.Var, recvT types.Type) (heapKey, T
 func (fc *FnCtx) readField(st *State, base Term, recvT types.Type, f *types.Var) Term {
 	_, arr := fc.fieldArr(st, f, recvT)
 	v := Term{S: fmt.Sprintf("(select %s %s)", arr.S, base.S), Sort: sortOf(f.Type()), T: f.Type()}
+	if v.Sort == SStr || isSliceSort(v.Sort) {
+		for _, fact := range fc.rangeFacts(v, f.Type()) {
+			fc.assumeGlobal(boolT(fact))
+		}
+	}
 	return v
 }
 
 func (fc *FnCtx) writeField(st *State, base Term, recvT types.Type, f *types.Var, val Term) {
 	k, arr := fc.fieldArr(st, f, recvT)
+	fc.wlog = append(fc.wlog, wrec{k, base.S})
 	nv := fc.freshSort(fc.keyName(k), arr.Sort)
 	nv.T = f.Type()
 	fc.assume(st, boolT(fmt.Sprintf("(= %s (store %s %s %s))", nv.S, arr.S, base.S, val.S)))
@@ -1090,8 +1127,14 @@ func (fc *FnCtx) valueFor(st *State, e ast.Expr, t types.Type) Term {
 }
 
 func (fc *FnCtx) storeConv(st *State, v Term, e ast.Expr, t types.Type) Term {
-	if v.T == nil {
+	if v.T == nil && e != nil {
 		v.T = fc.typeOf(e)
+	}
+	if t != nil && v.S == "0" && v.Sort == SInt && sortOf(t) != SInt {
+		// untyped nil stored into a slice-typed location
+		if z := fc.zeroValue(t); z.S != "" {
+			return z
+		}
 	}
 	v = fc.convertTo(st, v, t)
 	if t != nil && isStructVal(t) && v.T != nil && isStructVal(v.T) && needsCopy(e) {
